@@ -71,9 +71,12 @@ def cases(seed, tier):
             return [v[i] if i in (a, b) else ND for i in range(n)]
         if kind == "gaps":
             return [ND if rng.random() < 0.3 else x for x in v]
+        if kind == "someneg":           # an ordinary series with one or two negative cells that are NOT the nodata value
+            for j in rng.sample(range(n), 1 if n < 5 else 2):
+                v[j] = -v[j]
         return v
 
-    kinds = ["full", "allmissing", "onevalid", "twovalid", "gaps", "constant", "allzero", "constgaps"]
+    kinds = ["full", "allmissing", "onevalid", "twovalid", "gaps", "constant", "allzero", "constgaps", "someneg"]
     sizes = [2, 3, 4, 5, 8] + ([] if quick else [13, 30])
 
     def gu(kernel, label, incontract, fn, outs):
@@ -118,6 +121,15 @@ def cases(seed, tier):
                 cal = np.array([[0, int((g == k).sum())] for k in range(ng)], dtype="int16")
                 gu("gammastd_grp", lab + f",ng={ng}", True, lambda b, xs=xs, g=g, ng=ng, cal=cal: stats.gammastd_grp(xs, g, ng, ND, cal, b[0]), [((n,), "int16")])
             gu("gammastd_yxt", lab, True, lambda b, yi=yi: stats.gammastd_yxt(np.abs(yi).reshape(1, 1, -1), 3000, 0, len(yi)), [])
+            if kd in ("someneg", "gaps", "full"):
+                # cells that are neither nodata nor a non-negative observation (negative values, NaN in a float series with a numeric
+                # nodata): the pixel is still fitted, those cells must still be written; the pixel sits between two ordinary neighbours
+                for dt in ("int16", "float32"):
+                    cube = np.stack([np.abs(yi), yi, np.abs(yi)[::-1]]).astype(dt).reshape(1, 3, -1)
+                    if dt == "float32" and n >= 3:
+                        cube[0, 1, n // 2] = np.nan
+                    gu("gammastd_yxt", lab + f",raw,{dt}", True, lambda b, cube=cube: stats.gammastd_yxt(cube, ND, 0, cube.shape[-1]), [])
+                    gu("gammastd_grp", lab + f",raw,{dt}", True, lambda b, cube=cube: stats.gammastd_grp(cube, np.zeros(cube.shape[-1], dtype="int16"), 1, ND, np.array([[0, cube.shape[-1]]], dtype="int16")), [])
             gu("_mann_kendall_trend_gu", lab, True, lambda b, yi=yi: stats._mann_kendall_trend_gu(yi, b[0], b[1], b[2], b[3]), [((), "float32"), ((), "float32"), ((), "float32"), ((), "int8")])
             gu("_mann_kendall_trend_gu_nd", lab, True, lambda b, yi=yi: stats._mann_kendall_trend_gu_nd(yi, ND, b[0], b[1], b[2], b[3]), [((), "float32"), ((), "float32"), ((), "float32"), ((), "int8")])
             gu("mann_kendall_trend_1d", lab, True, lambda b, yi=yi: tuple(np.float64(v) for v in stats.mann_kendall_trend_1d(yi)), [])
